@@ -2,7 +2,7 @@
    used by the PLE/PLUQ models, index maps of LAPACK swap sequences, the pivot search, and the
    reflection lemmas for the boolean checkers.  Everything here is generic (no PLE specifics). *)
 From Coq Require Import List NArith Arith Lia Bool Sorted.
-From M4 Require Import Base.Bits Lin.Mat Lin.MatAlg Lin.Ops Lin.Spec.
+From M4 Require Import Base.Bits Lin.Mat Lin.MatAlg Lin.Ops Lin.Spec Alg.PLE.
 Import ListNotations.
 Local Open Scope nat_scope.
 
@@ -439,9 +439,8 @@ Proof.
       destruct (Nat.ltb_spec i r0) as [Hlt|Hge].
       { (* row above the region *)
         destruct best as [[ib jb]|]; cbn [fp_inv] in *.
-        - destruct Hinv as (H1 & H2 & H3 & H4 & H5). repeat split; try lia; auto.
-          intros i' j Hi' Hj. apply H4; lia.
-        - intros i' j Hi' Hj. apply Hinv; lia. }
+        - destruct Hinv as (H1 & H2 & H3 & H4 & H5). exfalso; lia.
+        - intros i' j Hi' Hj. exfalso; lia. }
       destruct (lowbit (N.shiftr r (N.of_nat c0))) as [l|] eqn:El.
       * apply lowbit_some in El. destruct El as [El1 El2].
         rewrite testbit_shiftr_nat in El1.
@@ -479,7 +478,7 @@ Proof.
   destruct (Nat.lt_ge_cases i (nr A)) as [Hlt|Hge]; [|now apply get_out_row].
   pose proof (find_pivot_aux_inv (get A) (rows A) 0 r0 c0 None) as Hinv.
   unfold find_pivot in H. rewrite H in Hinv. cbn [fp_inv] in Hinv.
-  apply Hinv; try lia; [reflexivity|intros; lia].
+  apply Hinv; try lia; try (intros; reflexivity); intros; lia.
 Qed.
 
 Lemma find_pivot_some A r0 c0 ib jb : wf A -> find_pivot A r0 c0 = Some (ib, jb) ->
@@ -490,7 +489,7 @@ Proof.
   intros HA H. pose proof (wf_len A HA) as Hl.
   pose proof (find_pivot_aux_inv (get A) (rows A) 0 r0 c0 None) as Hinv.
   unfold find_pivot in H. rewrite H in Hinv. cbn [fp_inv] in Hinv.
-  destruct Hinv as (H1 & H2 & H3 & H4 & H5); [reflexivity|intros; lia|].
+  destruct Hinv as (H1 & H2 & H3 & H4 & H5); [intros; reflexivity|intros; lia|].
   destruct (get_in A ib jb HA H3) as [Hi Hj].
   repeat split; try lia; auto.
   intros i j Hi' Hj'. destruct (Nat.lt_ge_cases i (nr A)); [apply H4; lia|now apply get_out_row].
@@ -554,7 +553,7 @@ Qed.
 Lemma mequal_spec A B : mequal A B = true <-> A = B.
 Proof.
   unfold mequal. rewrite !andb_true_iff, !Nat.eqb_eq, list_eqb_spec.
-  destruct A, B; cbn [nr nc rows]. split; [intros [[-> ->] ->]; reflexivity|intros H; injection H; auto].
+  destruct A, B; cbn. split; [intros [[-> ->] ->]; reflexivity|intros H; injection H; auto].
 Qed.
 
 Lemma lapackb_spec P n : lapackb P n = true <-> lapack P n.
